@@ -24,6 +24,15 @@ INLINE = [
     {"inline": "-- sqlfluff:max_line_length:10\nSELECT a, b, c, d, e FROM tbl\n", "rules": "LT05"},
     {"inline": "-- sqlfluff:rules:LT01\nSELECT a  from b\n"},
     {"inline": "-- sqlfluff:dialect:tsql\nSELECT [a]  from b\n"},
+    # nested configuration: the file lives in a sub-directory with its own .sqlfluff (rule option / rule
+    # selection / templater context); stdin is given --stdin-filename sub/f.sql
+    {"inline": "select a  from b\n", "file": "sub/f.sql", "extra": {"sub/.sqlfluff": "[sqlfluff:rules:capitalisation.keywords]\ncapitalisation_policy = upper\n"}},
+    {"inline": "SELECT a  from b\n", "file": "sub/f.sql", "extra": {"sub/.sqlfluff": "[sqlfluff]\nexclude_rules = LT01\n"}},
+    {"inline": "SELECT {{ col }}  from {{ tbl }}\n", "file": "sub/f.sql", "extra": {"sub/.sqlfluff": "[sqlfluff:templater:jinja:context]\ncol = a\ntbl = b\n"}},
+    {"inline": "SELECT {{ col }}  from b\n", "file": "sub/deep/f.sql", "extra": {"sub/.sqlfluff": "[sqlfluff:templater:jinja:context]\ncol = a\n", "sub/deep/.sqlfluff": "[sqlfluff]\nrules = CP01\n"}},
+    # templated files in the project root
+    {"inline": "SELECT {% if true %}a{% else %}b{% endif %}  from b\n"},
+    {"inline": "SELECT a {% for x in [1, 2] %}, {{ x }} {% endfor %} from b  \n"},
 ]
 
 
@@ -68,15 +77,20 @@ def run_case(case):
     res = {"n": 0, "fails": [], "cls": set(), "stats": {}, "nontrivial": 0}
     if case["k"] == "inline":
         spec = INLINE[case["i"]]
-        s = {"err": "none", "fix": "none", "supp": "none", "feu": False, "inline": case["i"]}
-        orig_text, orig_cfg = clifam.scenario_text, clifam.scenario_cfg
-        clifam.scenario_text = lambda _s: spec["inline"]
-        clifam.scenario_cfg = lambda _s: "[sqlfluff]\ndialect = ansi\nrules = %s\n" % spec.get("rules", "LT01,CP01")
-        try:
-            obs = clifam.observe(s)
-        finally:
-            clifam.scenario_text, clifam.scenario_cfg = orig_text, orig_cfg
-        feats = {"inline_config": True}
+        s = {
+            "err": "none", "fix": "none", "supp": "none", "feu": False, "inline": case["i"],
+            "text": spec["inline"],
+            "cfg": "[sqlfluff]\ndialect = ansi\nrules = %s\n" % spec.get("rules", "LT01,CP01"),
+        }
+        if "file" in spec:
+            s["file"] = spec["file"]
+            s["extra_files"] = spec["extra"]
+        obs = clifam.observe(s)
+        if "file" in spec:
+            # the simple API takes one config file, it cannot see the nested one: not comparable
+            obs.pop("lint_simple_api", None)
+            obs.pop("fix_simple_api", None)
+        feats = {"inline_config": "file" not in spec, "nested_config": "file" in spec}
     else:
         s = case["s"]
         obs = clifam.observe(s)
